@@ -97,7 +97,7 @@ func body(w *run.Worker) {
 			w.Count("cases_skipped_after_stalls", 1)
 			return
 		}
-		r := c.Rng
+		r := caseRng(w, c)
 		big := r.Chance(1, 150)
 		kind := r.Pick(baseCASChunk, baseCASChunk, baseCASChunk, baseCASReader)
 		p := &plan{base: genBase(r, kind, big)}
@@ -195,7 +195,7 @@ func body(w *run.Worker) {
 			w.Count("cases_skipped_after_stalls", 1)
 			return
 		}
-		r := c.Rng
+		r := caseRng(w, c)
 		p := &plan{base: genBase(r, r.Intn(numBases), r.Chance(1, 200))}
 		budget := 6
 		depth := r.Range(1, 4)
@@ -211,6 +211,16 @@ func body(w *run.Worker) {
 		}
 		w.Count("random_programs", 1)
 	})
+}
+
+// caseRng derives the case's generator from c.Rng and the worker index.
+// lib/gen.New folds its seeds into one word with xor and add only, so for
+// small seeds the stream of (worker w, case i) equals that of (worker 0, case
+// i^k): every worker would run the same cases in a different order (measured:
+// distinct cases = 1/8 of the evaluations at seeds 1, 2, 3, 7). Mixing the
+// worker index in through the generator's output function separates them.
+func caseRng(w *run.Worker, c *run.Case) *gen.Rng {
+	return gen.New(c.Rng.Uint64(), gen.New(uint64(w.Index)+1).Uint64(), c.Rng.Uint64())
 }
 
 func share(total int, w *run.Worker) int {
